@@ -559,7 +559,7 @@ Proof.
   intros Hop Hr Hl. unfold assign_transform. destruct (is_pat_target lhs); [discriminate|].
   destruct (hoist_target c lhs (lo, hi) acc0 p) as [[lhs' hoisted] p0] eqn:E.
   pose proof (Hl _ _ _ eq_refl) as L0. apply hoist_target_ns in E. destruct E as [E A].
-  set (right := if is_op bin_op "+" rhs then mk_paren (span_of rhs) rhs else rhs).
+  set (right := if is_op bin_op "+" rhs then mk_paren (paren_span (span_of rhs)) rhs else rhs).
   assert (Rn : mu right = mu rhs).
   { unfold right. destruct (is_op bin_op "+" rhs); [apply ns_mk_paren | reflexivity]. }
   assert (Rc : ident_clean right).
